@@ -67,6 +67,27 @@ class Fst:
                 todo.append((r, i, out + o))
         return res
 
+    def configurations(self, word, limit=200000):
+        """number of distinct (state, position, output) configurations reachable on `word` (the work any correct
+        exhaustive translation has to do; used to scale the step budget of the real translate)"""
+        word = tuple(word)
+        seen = set()
+        todo = [(s, 0, ()) for s in self.starts]
+        while todo:
+            c = todo.pop()
+            if c in seen:
+                continue
+            seen.add(c)
+            if len(seen) > limit:
+                raise TooLarge()
+            q, i, out = c
+            if i < len(word):
+                for r, o in self.by.get((q, word[i]), ()):
+                    todo.append((r, i + 1, out + o))
+            for r, o in self.by.get((q, None), ()):
+                todo.append((r, i, out + o))
+        return len(seen)
+
     def eps_relation_has_output(self):
         return any(o for o in self.outputs(()))
 
